@@ -117,7 +117,7 @@ func (p *c02) Run(w *lib.Worker, idx int, r *lib.Rand) lib.Case {
 		outcomes = append(outcomes, o)
 		c.Evals++
 		if o.Panic != "" {
-			if knownC07Panic(o, cont, text) {
+			if knownC07Panic(o, cont, text) || knownC07IdPanic(o, text) {
 				c.Tags = append(c.Tags, "skipped:known-C07-panic")
 				return c
 			}
